@@ -187,7 +187,7 @@ def chords_case(draw, dims=(2, 3, 4), free=True):
             units.append(draw(free_unit(n)))
         else:
             units.append(draw(chord_unit(n)))
-    return dict(n=n, shape=shape, units=units, ctor=draw(st.sampled_from([0, 1, 2, 3, 4])),
+    return dict(n=n, shape=shape, units=units, ctor=draw(st.sampled_from([0, 1, 2, 3, 4, 5, 6])),
                 model=model,
                 obj=draw(st.sampled_from(["segment", "segment", "geodesic"])))
 
@@ -199,7 +199,7 @@ def _proj(x):
     return np.concatenate([np.ones(x.shape[:-1] + (1,)), x], axis=-1)
 
 
-def build_segment(case):
+def build_segment(case, ctx=None):
     n, shape = case["n"], tuple(case["shape"])
     P = np.array([u["p"] for u in case["units"]], dtype=float).reshape(shape + (n,))
     Q = np.array([u["q"] for u in case["units"]], dtype=float).reshape(shape + (n,))
@@ -207,6 +207,25 @@ def build_segment(case):
     if ctor == 0:
         return hyperbolic.Segment(hyperbolic.Point(P.copy(), model="klein"),
                                   hyperbolic.Point(Q.copy(), model="klein"))
+    if ctor in (5, 6):
+        # endpoints supplied in Poincare (5) or half-space (6) coordinates, in the caller's own
+        # arrays, which the caller goes on using: they still hold what was supplied
+        model = "poincare" if ctor == 5 else "halfspace"
+        inside = bool(np.all(np.sum(P * P, axis=-1) < 1 - 1e-9) and
+                      np.all(np.sum(Q * Q, axis=-1) < 1 - 1e-9))
+        if inside and (model == "poincare" or np.all(P[..., 0] < 0.9) and np.all(Q[..., 0] < 0.9)):
+            Pm = np.array([to_model(x, model) for x in P.reshape(-1, n)]).reshape(shape + (n,))
+            Qm = np.array([to_model(x, model) for x in Q.reshape(-1, n)]).reshape(shape + (n,))
+            keep = (Pm.copy(), Qm.copy())
+            seg = hyperbolic.Segment(hyperbolic.Point(Pm, model=model),
+                                     hyperbolic.Point(Qm, model=model))
+            seg.circle_parameters(model="poincare") if n == 2 else seg.sphere_parameters("poincare")
+            if ctx is not None:
+                ctx.label("ctor=model-coordinates")
+                ctx.check(np.array_equal(Pm, keep[0]) and np.array_equal(Qm, keep[1]),
+                          "building points from %s coordinates leaves the caller's arrays as "
+                          "supplied" % model, before=keep[0], after=Pm)
+            return seg
     if ctor == 1:
         return hyperbolic.Segment(_proj(P), _proj(Q))
     seg = hyperbolic.Segment(np.stack([_proj(P), _proj(Q)], axis=-2))
@@ -296,7 +315,7 @@ def not_origin(units):
 # law 1: ideal endpoints
 def body_ideal_endpoints(case, ctx):
     n, shape = case["n"], tuple(case["shape"])
-    seg = build_segment(case)
+    seg = build_segment(case, ctx)
     ctx.check(seg.shape == shape, "segment composite shape", got=seg.shape, want=shape)
     aux = np.array(seg.ideal_basis)
     ctx.check(aux.shape == shape + (2, n + 1), "ideal basis shape", got=aux.shape)
@@ -376,7 +395,7 @@ def circle_checks(ctx, model, c, r, pts_model, tag, scale=1.0, unit=0, extra=0.0
 
 def body_circle_orthogonal(case, ctx):
     n, shape, model = case["n"], tuple(case["shape"]), case["model"]
-    seg = build_segment(case)
+    seg = build_segment(case, ctx)
     obj = seg.geodesic() if case["obj"] == "geodesic" else seg
     label_common(ctx, case, ["model=" + model, "obj=" + case["obj"]])
     if not_origin(case["units"]):
@@ -487,7 +506,7 @@ def arc_checks(ctx, model, c, r, th, ends_klein, ends_model, interior, tag, scal
 
 def body_arc(case, ctx):
     n, shape, model = 2, tuple(case["shape"]), case["model"]
-    seg = build_segment(case)
+    seg = build_segment(case, ctx)
     label_common(ctx, case, ["model=" + model])
     if not_origin(case["units"]):
         ctx.label("not-origin")
@@ -541,7 +560,7 @@ def body_arc(case, ctx):
 # law 4: degrees vs radians
 def body_degrees(case, ctx):
     shape, model = tuple(case["shape"]), case["model"]
-    seg = build_segment(case)
+    seg = build_segment(case, ctx)
     label_common(ctx, case, ["model=" + model, "not-origin", "angles-checked",
                              "radius-in-(0.05,50)"])
     for tag, obj in (("segment", seg), ("geodesic", seg.geodesic())):
@@ -603,13 +622,13 @@ def straight_case(draw):
         p = [h * x + a * y for x, y in zip(e, d)]
         q = [h * x + b * y for x, y in zip(e, d)]
         units.append(dict(p=p, q=q, kind="ii", h=h))
-    return dict(n=n, shape=shape, units=units, ctor=draw(st.sampled_from([0, 1, 2, 3, 4])),
+    return dict(n=n, shape=shape, units=units, ctor=draw(st.sampled_from([0, 1, 2, 3, 4, 5, 6])),
                 model="poincare", obj=draw(st.sampled_from(["segment", "geodesic"])))
 
 
 def body_straight(case, ctx):
     n, shape = case["n"], tuple(case["shape"])
-    seg = build_segment(case)        # must not raise
+    seg = build_segment(case, ctx)        # must not raise
     obj = seg.geodesic() if case["obj"] == "geodesic" else seg
     label_common(ctx, case, ["obj=" + case["obj"]])
     centre, radius = obj.sphere_parameters("poincare")
